@@ -11,6 +11,7 @@ CONSTANTS
   FixDetach = TRUE
   FixUpdater = TRUE
   CfgOK <- CfgOne
+  Features <- FeatNone
 SPECIFICATION MCSpec
 VIEW View
 INVARIANTS TypeOK NoWriteAfterClose ClosedOnce WriterExclusive OrderedExact SharedIffSameKey StartOncePerLivePeriod NoStaleInit NoStaleDetach NoStaleUpdater NoLateInit Quiescent CancelledWhenDone RegistryConsistent
